@@ -170,6 +170,44 @@ def expected_ok(ns, req, its, log, stop_at):
   return None
 
 
+def check_understood_and_sorted(c, ns, req, its):
+  """Contracts of UnderstandIterations (the maps are their comprehension definitions) and SortActions
+  (a permutation; iteration members contiguous in declared order; prerequisites first)."""
+  want_ai = {p: k for k, it in its.items() for p in it['predicates'] if p in ns}
+  if c.action_iteration != want_ai:
+    return 'UnderstandIterations: action_iteration is %r, definition gives %r' % (c.action_iteration, want_ai)
+  if c.iteration_repetitions != {k: it['repetitions'] for k, it in its.items()}:
+    return 'UnderstandIterations: iteration_repetitions differ from the declared ones'
+  if c.iteration_actions != {k: list(it['predicates']) for k, it in its.items()}:
+    return 'UnderstandIterations: iteration_actions differ from the declared order'
+  for k, it in its.items():
+    ms = it['predicates']
+    if it.get('mode') == 'diamond':
+      upper, lower = set(ms), set()
+    else:
+      upper, lower = set(ms[:len(ms) // 2]), set(ms[len(ms) // 2:])
+    for half in (upper, lower):
+      ext = {r for m in half for r in req[m]} - half
+      for m in half:
+        if not ext <= set(c.action_requires[m]):
+          return 'UnderstandIterations: member %s does not require the external prerequisites %r of its half' % (m, sorted(ext))
+  order = list(c.actions_to_run)
+  if sorted(order) != sorted(ns):
+    return 'SortActions: result %r is not a permutation of the actions' % order
+  pos = {a: i for i, a in enumerate(order)}
+  for k, it in its.items():
+    ms = [m for m in it['predicates'] if m in pos]
+    if [order[i] for i in range(pos[ms[0]], pos[ms[0]] + len(ms))] != ms:
+      return 'SortActions: members of iteration %s are not contiguous in declared order: %r' % (k, order)
+  for a in ns:
+    for r in req[a]:
+      if want_ai.get(a) is not None and want_ai.get(a) == want_ai.get(r):
+        continue
+      if pos[r] > pos[a]:
+        return 'SortActions: %s is scheduled before its prerequisite %s' % (a, r)
+  return None
+
+
 def run_plan(cl, ns, req, its, stop_at, scratch):
   config = [{'name': a, 'requires': list(req[a]), 'action': {'predicate': a, 'launcher': 'none'}} for a in ns]
   its2 = {k: dict(v) for k, v in its.items()}
@@ -182,6 +220,9 @@ def run_plan(cl, ns, req, its, stop_at, scratch):
   try:
     with contextlib.redirect_stdout(io.StringIO()):
       c = cl.Concertina(config, eng, display_mode='silent', iterations=its2)
+      msg = check_understood_and_sorted(c, ns, req, its2)
+      if msg:
+        return eng.log, msg
       c.Run()
   except Exception as e:
     return eng.log, '%s: %s' % (type(e).__name__, str(e)[:200])
